@@ -18,7 +18,8 @@ REPO = os.environ.get("QVC_REPO", "/repo")
 
 
 class Obl:
-    def __init__(self, name, hyps, goal, level, instance, info, replay):
+    def __init__(self, name, hyps, goal, level, instance, info, replay, timeout=None):
+        self.timeout = timeout
         self.name, self.hyps, self.goal, self.level = name, hyps, goal, level
         self.instance, self.info, self.replay = instance, info or {}, replay
         self.result = None
@@ -85,9 +86,9 @@ class Run:
     def assume(self, *names):
         self.trusted.update(names)
 
-    def add(self, name, hyps, goal, level="property", instance=None, info=None, replay=None):
+    def add(self, name, hyps, goal, level="property", instance=None, info=None, replay=None, timeout=None):
         """level: 'property' (refutation = violation), 'helper' (contract drift), 'side' (undecided if refuted)."""
-        self.obls.append(Obl(name, list(hyps), goal, level, instance or {}, info, replay))
+        self.obls.append(Obl(name, list(hyps), goal, level, instance or {}, info, replay, timeout))
 
     def add_path_obligations(self, results, prefix, instance=None, level="side", kinds=("assert", "side", "torch-pre", "internal")):
         """Internal obligations met while executing (asserts, divisor-positive, broadcast-compatibility, ...)."""
@@ -128,7 +129,7 @@ class Run:
 
     # ---------------------------------------------------------------- discharge + report
     def finish(self, replay_fn=None):
-        results = solve.discharge([(o.name, o.hyps, o.goal) for o in self.obls], timeout_s=self.timeout)
+        results = solve.discharge([(o.name, o.hyps, o.goal, o.timeout or self.timeout) for o in self.obls], timeout_s=self.timeout)
         for o, r in zip(self.obls, results):
             o.result = r
         by_backend, tsum, tmax = {}, 0.0, 0.0
@@ -213,8 +214,11 @@ class Run:
             samples.append({"obligation": o.name, "level": o.level, "instance": o.instance, "hypotheses": len(o.hyps),
                             "goal": str(o.goal)[:300], "verdict": o.result["verdict"], "backend": o.result["backend"],
                             "time_s": round(o.result["time"], 3)})
+        slowest = sorted(self.obls, key=lambda o: -o.result["time"])[:12]
         cov = {
             "obligations": n, "discharged": disch,
+            "slowest": [{"obligation": o.name, "time_s": round(o.result["time"], 2), "backend": o.result["backend"],
+                         "verdict": o.result["verdict"]} for o in slowest],
             "checker_cmd": " ".join(sys.argv),
             "trusted_base": sorted(self.trusted),
             "functions_under_contract": self.functions,
